@@ -202,7 +202,7 @@ class LTI(InputOutputSystem):
         from control.freqplot import _default_frequency_range
         omega = _default_frequency_range(self)
         mag, phase, omega = self.frequency_response(omega)
-        idx_dropped = np.nonzero(mag - dcgain*10**(dbdrop/20) < 0)[0]
+        idx_dropped = np.nonzero(mag - np.abs(dcgain)*10**(dbdrop/20) < 0)[0]
 
         if idx_dropped.shape[0] == 0:
             # no frequency response is dbdrop below the dc gain, return np.inf
